@@ -10,6 +10,7 @@ import (
 	"errors"
 	"fmt"
 	"io"
+	"runtime"
 	"sync"
 	"testing"
 	"time"
@@ -961,5 +962,41 @@ func TestVerifC06_ViaRetry(t *testing.T) {
 			}
 			return hostile, []string{"via-retry-client"}
 		})
+	})
+}
+
+// ---------------------------------------------------------------------------
+// target 6: the allocation bound for one (legal, large) packet
+
+type c06AllocCase struct {
+	BodyMB int `json:"bodyMB"`
+}
+
+// TestVerifC06_AllocBound: receiving one legal packet with a large body must not allocate more than the protocol's
+// maximum packet size in total (measured as the process' cumulative allocation while the packet is read).
+func TestVerifC06_AllocBound(t *testing.T) {
+	vRun(t, "C06", vOpts{CurFile: true}, func(rt *rapid.T) c06AllocCase {
+		return c06AllocCase{BodyMB: rapid.SampledFrom([]int{1, 40, 100, 144, 200, 255}).Draw(rt, "bodyMB")}
+	}, func(tb rapid.TB, c c06AllocCase) {
+		n := c.BodyMB << 20
+		if n > refMaxRemaining {
+			n = refMaxRemaining
+		}
+		z := &c05ZeroReader{head: append([]byte{0x30}, refEncodeLen(n)...), left: n}
+		runtime.GC()
+		var m0, m1 runtime.MemStats
+		runtime.ReadMemStats(&m0)
+		_, _, body, err := readPacket(z)
+		runtime.ReadMemStats(&m1)
+		vCount("C06", n >= 1<<20, vJSON(c), []string{"alloc-bound"}, func() interface{} { return c })
+		if err != nil || len(body) != n {
+			vFailf(tb, nil, "readPacket of a legal %d-byte body failed: %v (got %d bytes)", n, err, len(body))
+		}
+		alloc := m1.TotalAlloc - m0.TotalAlloc
+		body = nil
+		runtime.GC()
+		if alloc > refMaxRemaining+(8<<20) {
+			vFailf(tb, nil, "reading one packet with a %d-byte body allocated %d bytes in total, more than the protocol's maximum packet size (268435455)", n, alloc)
+		}
 	})
 }
